@@ -196,7 +196,8 @@ func (req *Request) Read(b *bufio.Reader) error {
 		if e != nil {
 			return ErrInvalidCmd
 		}
-		if !config.IsValidValueSize(uint32(length)) {
+		// check the int itself: converted to uint32, a negative or huge length can wrap into the valid range
+		if length < 0 || int64(length) > int64(^uint32(0)) || !config.IsValidValueSize(uint32(length)) {
 			return ErrValueTooLarge
 		}
 		if length > int(config.MCConf.BodyBig) {
